@@ -158,4 +158,17 @@ theorem step_unlocked (s : State C) (p : Path) (c : C) (op : Op C) (hk : KeepsUn
     · exact h
   | other q c0 => simp only [step]; split <;> exact h
 
+/-- history form of `step_locked` -/
+theorem locked_view_hist (p : Path) (ops : List (Op C)) (hne : ∀ op ∈ ops, ¬ IsEnd op) :
+    ∀ (s : State C) (c : C), s.cache p = some ⟨c, true⟩ →
+      (runOps s ops).cache p = some ⟨ownEffect p ops c, true⟩ := by
+  induction ops with
+  | nil => intro s c h; exact h
+  | cons op ops ih =>
+    intro s c h
+    have h1 := step_locked s p c op (hne op List.mem_cons_self) h
+    have := ih (fun o ho => hne o (List.mem_cons_of_mem _ ho)) (step s op).1 _ h1
+    rw [ownEffect_cons]
+    simpa only [runOps, List.foldl_cons] using this
+
 end Csvq.Session
